@@ -384,3 +384,113 @@ class VersionAdvance(Oracle):
                 fails.append("commit failed (%s) but the main repository changed: %s" % (
                     resp.split(" ")[0], sorted(set(now.items()) ^ set(self.main.items()))[:4]))
         return fails
+
+
+class TrueHistory(Oracle):
+    """C18: diff, log, file log and the last-update attribution judged against a set-based
+    specification computed from the version states (path -> digest) of the object."""
+    name = "true-history"
+
+    def __init__(self):
+        self.checks = 0
+        self.metas = {}     # id -> list of commit metas in order
+
+    @staticmethod
+    def spec_diff(L, R):
+        """set specification: returns the canonical item list"""
+        items = []
+        for p in set(L) & set(R):
+            if L[p] != R[p]:
+                items.append(("M", p))
+        lo = {p: d for p, d in L.items() if p not in R}
+        ro = {p: d for p, d in R.items() if p not in L}
+        for d in set(lo.values()) | set(ro.values()):
+            orig = sorted(p for p, x in lo.items() if x == d)
+            ren = sorted(p for p, x in ro.items() if x == d)
+            if orig and ren:
+                items.append(("R", tuple(orig), tuple(ren)))
+            else:
+                items += [("D", p) for p in orig] + [("A", p) for p in ren]
+        return sorted(items, key=repr)
+
+    @staticmethod
+    def canon(resp):
+        out = []
+        for it in jbody(resp):
+            if it[0] == "R":
+                out.append(("R", tuple(it[1]), tuple(it[2])))
+            else:
+                out.append((it[0], it[1]))
+        return sorted(out, key=repr)
+
+    def after(self, ctx, st, resp):
+        oid = oid_of(st)
+        if st["op"] == "purge" and ok(resp):
+            self.metas.pop(oid, None)
+            return []
+        if st["op"] not in ("commit", "upgrade") or not ok(resp) or not oid:
+            return []
+        m = st.get("meta", {})
+        if st["op"] == "commit":
+            self.metas.setdefault(oid, []).append((m.get("user"), m.get("addr"), m.get("msg"), m.get("created")))
+        else:
+            self.metas.setdefault(oid, []).append(("me", None, "upgrade", None))
+        fails = []
+        self.checks += 1
+        r = ctx.live.ask("heads %s" % hx(oid))
+        n = int(re.search(r"main=v0*(\d+)", r).group(1))
+        states, lastup = {}, {}
+        for k in range(1, n + 1):
+            v = jbody(ctx.live.ask("ver %s v%d" % (hx(oid), k)))
+            states[k] = {p: x[0] for p, x in v["state"].items()}
+            lastup[k] = {p: int(x[2][1:]) for p, x in v["state"].items()}
+        # diff for every ordered pair, and against the preceding version
+        for a in range(1, n + 1):
+            for b in range(1, n + 1):
+                r = ctx.live.ask("diff %s v%d v%d" % (hx(oid), a, b))
+                want = [] if a == b else self.spec_diff(states[a], states[b])
+                if not ok(r) or self.canon(r) != want:
+                    fails.append("diff v%d v%d of %s: reported %s, the states differ by %s" % (a, b, oid, r[:300], want))
+                # the report must describe each path at most once
+                if ok(r):
+                    seen = []
+                    for it in self.canon(r):
+                        seen += list(it[1]) + list(it[2]) if it[0] == "R" else [it[1]]
+                    if len(seen) != len(set(seen)):
+                        fails.append("diff v%d v%d of %s mentions a path twice: %s" % (a, b, oid, r[:200]))
+        for b in range(1, n + 1):
+            r = ctx.live.ask("diff %s - v%d" % (hx(oid), b))
+            want = self.spec_diff(states[b - 1] if b > 1 else {}, states[b])
+            if not ok(r) or self.canon(r) != want:
+                fails.append("show v%d of %s: reported %s, expected the diff against v%d: %s" % (b, oid, r[:300], b - 1, want))
+        # log
+        r = ctx.live.ask("log %s" % hx(oid))
+        lg = jbody(r) if ok(r) else None
+        metas = self.metas.get(oid, [])
+        if lg is None or [int(x["v"][1:]) for x in lg] != list(range(1, n + 1)):
+            fails.append("log of %s does not list v1..v%d in order: %s" % (oid, n, r[:200]))
+        elif len(metas) == n:
+            for x, (u, a, msg, created) in zip(lg, metas):
+                if (x["user"], x["addr"] if u else None, x["msg"]) != (u, a if u else None, msg) or (created and x["created"] != created):
+                    fails.append("log entry %s of %s shows %s, committed with %s" % (x["v"], oid, x, (u, a, msg, created)))
+        # file log and last update
+        allp = set().union(*[set(s) for s in states.values()]) if states else set()
+        for p in sorted(allp):
+            want, cur = [], None
+            for k in range(1, n + 1):
+                d = states[k].get(p)
+                if d != cur:
+                    want.append(k)
+                    cur = d
+            r = ctx.live.ask("flog %s %s" % (hx(oid), hx(p)))
+            got = [int(v[1:]) for v in jbody(r)] if ok(r) else None
+            if got != want:
+                fails.append("file log of %r in %s: %s, the path appeared/changed/disappeared in %s" % (p, oid, got, want))
+            for k in range(1, n + 1):
+                if p in states[k]:
+                    j = k
+                    while j > 1 and states[j - 1].get(p) == states[k][p]:
+                        j -= 1
+                    if lastup[k][p] != j:
+                        fails.append("ls -l of %s v%d attributes %r to v%d, it last changed in v%d" % (oid, k, p, lastup[k][p], j))
+        return fails
